@@ -114,6 +114,15 @@ def exec (w : W) (t : List String) : W × String × Option Nat :=
       if !cl.hasGroup then (w, "err:9", some (n c)) else
       ({ w with events := w.events ++ [{ n := n nn, ts := n ts, idnum := n idnum, cipher := n nn, sender := n c, path := cl.g.path, kind := .commit (.removeLeavers [n j]) [] }] }, s!"ev={n nn}", some (n c))
     | none => (w, "bad-client", none)
+  | ["advgce", c, nn, ts, idnum] =>
+    -- a member's GroupContextExtensions commit built with OpenMLS directly (it names itself among the admins):
+    -- published, not recorded or staged at the sender; only generated for NON-admins, whose commit every
+    -- receiver must refuse whatever it carries
+    match getCl w (n c) with
+    | some cl =>
+      if !cl.hasGroup then (w, "err:9", some (n c)) else
+      ({ w with events := w.events ++ [{ n := n nn, ts := n ts, idnum := n idnum, cipher := n nn, sender := n c, path := cl.g.path, kind := .commit (.setName 0) [] }] }, s!"ev={n nn}", some (n c))
+    | none => (w, "bad-client", none)
   | ["fp", c] => (w, "fp", some (n c))
   | _ => (w, "bad-op", none)
 
